@@ -1,11 +1,13 @@
 """C05 A modified encrypted file never decrypts successfully to different plaintext."""
 from .common import combined
 LEVEL = 'other'
-RULES = ('R05.a', 'R05.d', 'S-GATE', 'S-CMP', 'R05.e', 'R12.a', 'R08.b', 'R07.e', 'R07.d', 'R07.g', 'R07.t', 'R06.a', 'R06.c', 'R08.r')
+RULES = ('R05.a', 'R05.d', 'S-GATE', 'S-CMP', 'R05.e', 'R12.a', 'R08.b', 'R07.e', 'R07.d', 'R07.g', 'R07.t', 'R06.a', 'R06.c', 'R08.r', 'R08.f', 'R01.u')
 
 
 def run(prog, rec, tier):
-    combined(prog, rec, tier, RULES, driver=('reader',), hmac=('scmp', 'structure'), hash=('drivers', 'buffer', 'buffer_sim', 'finaliser'), compress=True,
+    from . import static_rules as _sr
+    _sr.unsequenced(prog, rec, 'R01.u', 'R01.u@kernel::evaluation-order', ('kernel', 'main.cpp', 'valget'))
+    combined(prog, rec, tier, RULES, driver=('reader',), hmac=('scmp', 'structure'), hash=('drivers', 'buffer', 'buffer_sim', 'finaliser', 'factory'), compress=True,
              explanation='Every file-derived scalar that steers processing after the verification gate must come from the hashed range '
              '[48,EOF) or be pinned to a constant (provenance by named file-offset symbols); accepted paths hash the input from 48 to '
              'EOF; output effects are control-dependent on verify()==0; tag compare establishes equality of every digest byte. '
